@@ -225,3 +225,85 @@ func ruleSlashCollapse(c *Ctx, r *Report, clause, fnKey, desc string) {
 	}
 	r.add(clause, "slash-collapse", fnKey, desc, []string{fnKey}, []string{c.W.pos(pos), c.W.pos(fi.Decl.Pos())}, viol)
 }
+
+// globalRegexPattern returns the constant pattern a package-level *regexp.Regexp variable
+// is compiled from.
+func (w *World) globalRegexPattern(v *types.Var) (string, bool) {
+	p := w.ByPath[v.Pkg().Path()]
+	if p == nil {
+		return "", false
+	}
+	for _, f := range p.Syntax {
+		for _, d := range f.Decls {
+			gd, ok := d.(*ast.GenDecl)
+			if !ok {
+				continue
+			}
+			for _, s := range gd.Specs {
+				vs, ok := s.(*ast.ValueSpec)
+				if !ok {
+					continue
+				}
+				for i, nm := range vs.Names {
+					if p.TypesInfo.Defs[nm] != types.Object(v) || i >= len(vs.Values) {
+						continue
+					}
+					var pat string
+					found := false
+					ast.Inspect(vs.Values[i], func(n ast.Node) bool {
+						if c, ok := n.(*ast.CallExpr); ok && calleeOfCall(p.TypesInfo, c) == "regexp.MustCompile" && len(c.Args) == 1 {
+							if tv := p.TypesInfo.Types[c.Args[0]]; tv.Value != nil {
+								pat, found = constString(tv.Value), true
+							}
+						}
+						return true
+					})
+					return pat, found
+				}
+			}
+		}
+	}
+	return "", false
+}
+
+// braceNameClass extracts, from a pattern of the shape `\{(<class>+)\}`, a predicate for
+// the characters allowed in the name.
+func braceNameClass(pat string) (func(rune) bool, bool) {
+	re, err := syntax.Parse(pat, syntax.Perl)
+	if err != nil {
+		return nil, false
+	}
+	var class *syntax.Regexp
+	var find func(r *syntax.Regexp)
+	find = func(r *syntax.Regexp) {
+		switch r.Op {
+		case syntax.OpPlus, syntax.OpStar, syntax.OpRepeat:
+			if len(r.Sub) == 1 && (r.Sub[0].Op == syntax.OpCharClass || r.Sub[0].Op == syntax.OpLiteral) && class == nil {
+				class = r.Sub[0]
+			}
+		}
+		for _, s := range r.Sub {
+			find(s)
+		}
+	}
+	find(re)
+	if class == nil {
+		return nil, false
+	}
+	return func(ch rune) bool {
+		if class.Op == syntax.OpLiteral {
+			for _, r := range class.Rune {
+				if r == ch {
+					return true
+				}
+			}
+			return false
+		}
+		for i := 0; i+1 < len(class.Rune); i += 2 {
+			if ch >= class.Rune[i] && ch <= class.Rune[i+1] {
+				return true
+			}
+		}
+		return false
+	}, true
+}
